@@ -256,6 +256,13 @@ def run(case, kind, seed=0, n_ops=10, ops=None, profile=None):
                 c = (f.get_n_valid_designs(with_fixed=True), f.get_n_design_space(with_fixed=True),
                      [dv.name for dv in f.des_vars], [dv.n_opts for dv in f.des_vars])
                 trace.append(['stats', a[0], a[1]])
+                # the imputation ratio is the quotient of the two sizes just read, with and without the fixed values
+                for wf in (True, False):
+                    nv_, nd_ = gp.get_n_valid_designs(with_fixed=wf), gp.get_n_design_space(with_fixed=wf)
+                    ir_ = gp.get_imputation_ratio(with_fixed=wf, include_cont=False)
+                    if nv_ > 0 and abs(ir_ - nd_ / nv_) > 1e-9 * max(1.0, ir_):
+                        fail('imputation-ratio-is-not-the-quotient', 'after %s (with_fixed=%s): ratio %r, declared %d / valid %d' % (trace[:-1], wf, ir_, nd_, nv_))
+                        break
                 if a != c:
                     fail('statistics-differ-from-fresh-processor', 'after %s: %s vs %s' % (trace[:-1], a, c))
                 if len(gp.des_vars) != len(E) - len(fixed):
